@@ -345,8 +345,11 @@ def gen_selection(rnd, lay, bindings, script_rel, base_abs, prefix):
         elif r < 0.85:
             # look-alikes that name nothing (or something else): prefixes / extensions of real names
             m = rnd.choice(mods)
-            specs.append(rnd.choice([m + 'x', m[:-1] if len(m) > 1 else m + 'q', m + '.nothing', m.split('.')[0] + '_',
-                                     m.replace('.', '/') + 'x.py']))
+            cand = rnd.choice([m + 'x', m[:-1] if len(m) > 1 else m + 'q', m + '.nothing', m.split('.')[0] + '_',
+                               m.replace('.', '/') + 'x.py'])
+            if cand.endswith('.') or '..' in cand or cand.startswith('.'):
+                cand = m + 'q'      # only well-formed dotted names (`pkg.` is name<->path resolution, property C18)
+            specs.append(cand)
         else:
             specs.append(rnd.choice([script_rel, './' + script_rel, os.path.join(base_abs, script_rel)]))
     # command line spelling: repeated -p, comma-joined, or --prof-mod=
